@@ -278,6 +278,12 @@ impl<'a> From<RemovalCookie<'a>> for ResponseCookie<'a> {
 pub struct SignedDuration { pub nanos: i128 }
 impl SignedDuration {
     pub const MAX: SignedDuration = SignedDuration { nanos: i128::MAX };
+    /// API neighbourhood (not called by the unchanged code): exact, over nanoseconds
+    pub fn min(self, o: SignedDuration) -> (r: SignedDuration) ensures r == (if self.nanos <= o.nanos { self } else { o }) { if self.nanos <= o.nanos { self } else { o } }
+    pub fn max(self, o: SignedDuration) -> (r: SignedDuration) ensures r == (if self.nanos >= o.nanos { self } else { o }) { if self.nanos >= o.nanos { self } else { o } }
+    pub fn from_secs(s: i64) -> (r: SignedDuration) ensures r.nanos == s as int * 1_000_000_000 { SignedDuration { nanos: s as i128 * 1_000_000_000 } }
+    pub fn from_mins(m: i64) -> (r: SignedDuration) ensures r.nanos == m as int * 60_000_000_000 { SignedDuration { nanos: m as i128 * 60_000_000_000 } }
+    pub fn from_hours(h: i64) -> (r: SignedDuration) ensures r.nanos == h as int * 3_600_000_000_000 { SignedDuration { nanos: h as i128 * 3_600_000_000_000 } }
 }
 pub open spec fn signed_max() -> SignedDuration { SignedDuration { nanos: i128::MAX } }
 pub uninterp spec fn dur_to_signed(d: Duration) -> Option<SignedDuration>;
